@@ -76,15 +76,22 @@ def replay_lsq(rec, ctx):
     viol = []
 
     def bad(what, detail):
-        viol.append({"sig": what, "detail": f"{detail} | W={rec['W']} b={rec['b']} alpha={alpha}"})
-    x, res = invert_regularised_lstsq(W, b, alpha=alpha)
+        viol.append({"sig": what + ("@alpha-scan" if rec.get("prev_alpha2", [0, 1])[0] else ""), "detail": f"{detail} | W={rec['W']} b={rec['b']} alpha={alpha} previous alpha^2={rec.get('prev_alpha2')}"})
+    # the caller's own Tikhonov array (identity), possibly used before in the same alpha scan
+    Lmat = np.eye(2)
+    pa = math.sqrt(fr(rec["prev_alpha2"])) if rec.get("prev_alpha2", [0, 1])[0] else None
+    if pa is not None:
+        invert_regularised_lstsq(W, b, alpha=pa, tikhonov_matrix=Lmat)
+        if b.max() > 0:
+            invert_regularised_nnls(W, b, alpha=pa, tikhonov_matrix=Lmat)
+    x, res = invert_regularised_lstsq(W, b, alpha=alpha, tikhonov_matrix=Lmat)
     want = [fr(p) for p in rec["lstsq"]]
     if not core.close([float(v) for v in x], want, rtol=1e-9, atol=1e-12):
         bad("lstsq:not-the-minimiser", f"x = {list(x)}, exact {want}")
     if len(res) == 1 and not core.close(float(res[0]), fr(rec["obj_lstsq"]), rtol=1e-9, atol=1e-12):
         bad("lstsq:reported-residual-inconsistent", f"{res} vs objective {fr(rec['obj_lstsq'])}")
     if b.max() > 0:
-        x, rnorm = invert_regularised_nnls(W, b, alpha=alpha)
+        x, rnorm = invert_regularised_nnls(W, b, alpha=alpha, tikhonov_matrix=Lmat)
         want = [fr(p) for p in rec["nnls"]]
         if not core.close([float(v) for v in x], want, rtol=1e-9, atol=1e-11):
             bad("nnls:not-the-minimiser", f"x = {list(x)}, exact {want}")
@@ -92,6 +99,10 @@ def replay_lsq(rec, ctx):
             bad("nnls:reported-residual-inconsistent", f"{rnorm} vs sqrt(objective) {math.sqrt(fr(rec['obj_nnls']))}")
         if (np.asarray(x) < 0).any():
             bad("nnls:negative-solution", str(list(x)))
+    # the default (no Tikhonov matrix given = identity) must agree
+    xd, _ = invert_regularised_lstsq(W, b, alpha=alpha)
+    if not core.close([float(v) for v in xd], [fr(p) for p in rec["lstsq"]], rtol=1e-9, atol=1e-12):
+        bad("lstsq:default-tikhonov-differs", f"x = {list(xd)}")
     # invert_svd vs the exact minimum-norm solution, for the problem as it is and multiplied by powers of ten
     if "minnorm" in rec:
         wantm = [fr(p) for p in rec["minnorm"]]
@@ -169,7 +180,7 @@ def run(v):
         for r, vs in zip(cases, out):
             for x in vs:
                 v.violation(x["sig"], x["detail"], r)
-        v.add_cases(len(cases), keys=[json.dumps([r["W"], r["b"], r["alpha2"]]) for r in cases])
+        v.add_cases(len(cases), keys=[json.dumps([r["W"], r["b"], r["alpha2"], r.get("prev_alpha2")]) for r in cases])
         v.sample(cases[len(cases) // 2])
     v.assumptions += ["small integer matrices (entries 0..2, up to 3x3 incl. zero rows/columns and rank-deficient ones), rational guesses; the default initial guess exp(-1) is irrational and is not used",
                       "a zero measurement vector makes the convergence measure undefined and is excluded", "OpenCL SART variant not exercised (no device)"]
